@@ -26,6 +26,11 @@
 (* object (IsDefaultVal); rebind entries <<"dflt", n>> write such a value  *)
 (* over a non-default one.  What the functor reports as non_default_args / *)
 (* default_args is decided by the VALUE (NonDefaultArgs / DefaultArgs).    *)
+(* Two live functors: `Fork` copies the active functor (clone / copy.copy / *)
+(* copy.deepcopy / pg.clone in the driver) into the passive slot `other`,  *)
+(* `Swap` exchanges the slots; every other action works on the active one  *)
+(* and must leave the passive one - what it reports and how it answers the *)
+(* two probe calls - untouched (CloneIsolated).                            *)
 (* A rebind is an ORDERED list of 1..MaxRebind entries with distinct       *)
 (* targets: <<"top", n>> binds n to 600+n, <<"box", n>> to Box(650+n),     *)
 (* <<"in", n>> writes 800+n at the nested path n.x of a boxed argument.    *)
@@ -65,10 +70,11 @@ VARIABLES sig,        \* the signature of the function under the functor
           flagAt,     \* "init": the flags were given to the constructor; "call": they are passed with each call
           res,        \* outcome of the last Construct / Call
           rep,        \* what the functor must report as its arguments (sym_init_args) after the step
+          other,      \* the passive functor (a copy made by Fork): [live, bound, vargs, ovr, ign, flagAt, rep]
           act,        \* the last call, for the replay driver
           steps
 
-vars == <<sig, phase, bound, vargs, ovr, ign, flagAt, res, rep, act, steps>>
+vars == <<sig, phase, bound, vargs, ovr, ign, flagAt, res, rep, other, act, steps>>
 
 -----------------------------------------------------------------------------
 Sigs == {[npos |-> n, ndef |-> d, va |-> va, k1 |-> k1, k2 |-> k2, vk |-> vk] :
@@ -193,8 +199,15 @@ NonDefaultArgs(s, b, v) == {n \in DOMAIN b : ~(n \in Named(s) /\ HasDefault(s, n
                            \cup (IF v # <<>> THEN {ARGS} ELSE {})
 DefaultArgs(s, b, v) == {p \in Named(s) : HasDefault(s, p) /\ (p \notin DOMAIN b \/ IsDefaultVal(p, b[p]))}
                         \cup (IF s.va /\ v = <<>> THEN {ARGS} ELSE {})
-Report(s, b, v) == [args |-> Reported(s, b), nondef |-> NonDefaultArgs(s, b, v), dflt |-> DefaultArgs(s, b, v)]
-NoRep == [args |-> EmptyMap, nondef |-> {}, dflt |-> {}]
+\* two probe calls that observe the binding bookkeeping from outside: "late" passes every named parameter that is
+\* NOT specified by keyword without override_args (must be accepted: nothing is bound twice), "plain" passes nothing
+ProbeNames(s, b) == Named(s) \ DOMAIN b
+LateProbe(s, b, v) == CallOutcome(s, b, v, [nargs |-> 0, kw |-> ProbeNames(s, b)], FALSE, FALSE, "distinct")
+PlainProbe(s, b, v) == CallOutcome(s, b, v, [nargs |-> 0, kw |-> {}], FALSE, FALSE, "distinct")
+Report(s, b, v) == [args |-> Reported(s, b), nondef |-> NonDefaultArgs(s, b, v), dflt |-> DefaultArgs(s, b, v),
+                    probe |-> ProbeNames(s, b), late |-> LateProbe(s, b, v), plain |-> PlainProbe(s, b, v)]
+NoRep == [args |-> EmptyMap, nondef |-> {}, dflt |-> {}, probe |-> {}, late |-> Err("none"), plain |-> Err("none")]
+NoOther == [live |-> FALSE, bound |-> EmptyMap, vargs |-> <<>>, ovr |-> FALSE, ign |-> FALSE, flagAt |-> "call", rep |-> NoRep]
 
 (* Symbolization with an explicit value spec for parameter p (pg.functor([(p, spec)]), pg.symbolize(f, [..]),      *)
 (* pg.wrap(cls, [..])).  Documented: a spec whose default conflicts with the callable's own default is refused       *)
@@ -228,7 +241,7 @@ P(S) == IF SimK = 0 \/ S = {} THEN S ELSE RandomSubset(IF SimK < Cardinality(S) 
 NoRes == Err("none")
 
 Init == /\ sig \in WFSigs /\ phase = "new" /\ bound = EmptyMap /\ vargs = <<>> /\ ovr = FALSE /\ ign = FALSE
-        /\ flagAt = "call" /\ res = NoRes /\ act = <<"Init">> /\ steps = 0 /\ rep = NoRep
+        /\ flagAt = "call" /\ res = NoRes /\ act = <<"Init">> /\ steps = 0 /\ rep = NoRep /\ other = NoOther
 
 Construct(c, o, g, fa, vm) ==
   /\ phase = "new"
@@ -241,33 +254,33 @@ Construct(c, o, g, fa, vm) ==
           ELSE UNCHANGED <<phase, bound, vargs, ovr, ign, flagAt>>
   /\ rep' = IF phase' = "built" THEN Report(sig, bound', vargs') ELSE NoRep
   /\ act' = <<"Construct", CtorPos(sig, c, vm), CtorKw(sig, c, vm), o, g, fa, vm>>    \* the valued arguments themselves
-  /\ steps' = steps + 1 /\ UNCHANGED sig
+  /\ steps' = steps + 1 /\ UNCHANGED <<sig, other>>
 
 SetAttr(n) ==
   /\ phase = "built" /\ n \in Named(sig)
   /\ bound' = Override(bound, [m \in {n} |-> 500 + n])
   /\ act' = <<"SetAttr", n, 500 + n>> /\ res' = NoRes /\ steps' = steps + 1 /\ rep' = Report(sig, bound', vargs)
-  /\ UNCHANGED <<sig, phase, vargs, ovr, ign, flagAt>>
+  /\ UNCHANGED <<sig, phase, vargs, ovr, ign, flagAt, other>>
 
 DelAttr(n) ==
   /\ phase = "built" /\ n \in (DOMAIN bound) \cap Named(sig)
   /\ bound' = Restrict(bound, (DOMAIN bound) \ {n})
   /\ act' = <<"DelAttr", n>> /\ res' = NoRes /\ steps' = steps + 1 /\ rep' = Report(sig, bound', vargs)
-  /\ UNCHANGED <<sig, phase, vargs, ovr, ign, flagAt>>
+  /\ UNCHANGED <<sig, phase, vargs, ovr, ign, flagAt, other>>
 
 Rebind(es) ==
   /\ phase = "built" /\ es # <<>> /\ DistinctTargets(es) /\ \A k \in 1..Len(es) : EntryOK(sig, bound, es[k])
   /\ bound' = ApplySeq(bound, es)
   /\ act' = <<"Rebind", [k \in 1..Len(es) |-> <<es[k][1], es[k][2], EntryVal(es[k])>>]>> /\ res' = NoRes /\ steps' = steps + 1 /\ rep' = Report(sig, bound', vargs)
-  /\ UNCHANGED <<sig, phase, vargs, ovr, ign, flagAt>>
+  /\ UNCHANGED <<sig, phase, vargs, ovr, ign, flagAt, other>>
 
 \* replacing the functor by its clone keeps everything, flags included
 Clone == /\ phase = "built" /\ act' = <<"Clone">> /\ res' = NoRes /\ steps' = steps + 1
-         /\ UNCHANGED <<sig, phase, bound, vargs, ovr, ign, flagAt, rep>>
+         /\ UNCHANGED <<sig, phase, bound, vargs, ovr, ign, flagAt, rep, other>>
 \* a JSON round trip keeps the arguments; the two flags are not arguments, so afterwards they travel with the call
 JsonRT == /\ phase = "built" /\ act' = <<"JsonRT">> /\ res' = NoRes /\ steps' = steps + 1
           /\ flagAt' = "call" /\ ovr' = FALSE /\ ign' = FALSE
-          /\ UNCHANGED <<sig, phase, bound, vargs, rep>>
+          /\ UNCHANGED <<sig, phase, bound, vargs, rep, other>>
 
 Call(c, ov, ig, cm) ==
   /\ phase = "built"
@@ -277,11 +290,24 @@ Call(c, ov, ig, cm) ==
   /\ res' = CallOutcome(sig, bound, vargs, c, ov, ig, cm)
   /\ act' = <<"Call", CallPosSeq(sig, bound, cm, c), CallKwMap(bound, cm, c), ov, ig, cm>>
   /\ steps' = steps + 1
-  /\ UNCHANGED <<sig, phase, bound, vargs, ovr, ign, flagAt, rep>>
+  /\ UNCHANGED <<sig, phase, bound, vargs, ovr, ign, flagAt, rep, other>>
 
 \* dropping the functor: the walk may build another one for the same function
 Drop == /\ phase = "built" /\ phase' = "new" /\ bound' = EmptyMap /\ vargs' = <<>> /\ ovr' = FALSE /\ ign' = FALSE
-        /\ flagAt' = "call" /\ res' = NoRes /\ act' = <<"Drop">> /\ steps' = steps + 1 /\ rep' = NoRep /\ UNCHANGED sig
+        /\ flagAt' = "call" /\ res' = NoRes /\ act' = <<"Drop">> /\ steps' = steps + 1 /\ rep' = NoRep /\ other' = NoOther /\ UNCHANGED sig
+
+\* a second live functor: the passive slot receives a copy of the active functor (flags included)
+Fork == /\ phase = "built" /\ ~other.live
+        /\ other' = [live |-> TRUE, bound |-> bound, vargs |-> vargs, ovr |-> ovr, ign |-> ign, flagAt |-> flagAt, rep |-> rep]
+        /\ act' = <<"Fork">> /\ res' = NoRes /\ steps' = steps + 1
+        /\ UNCHANGED <<sig, phase, bound, vargs, ovr, ign, flagAt, rep>>
+\* the passive functor becomes the active one and vice versa
+Swap == /\ phase = "built" /\ other.live
+        /\ bound' = other.bound /\ vargs' = other.vargs /\ ovr' = other.ovr /\ ign' = other.ign /\ flagAt' = other.flagAt
+        /\ rep' = other.rep
+        /\ other' = [live |-> TRUE, bound |-> bound, vargs |-> vargs, ovr |-> ovr, ign |-> ign, flagAt |-> flagAt, rep |-> rep]
+        /\ act' = <<"Swap">> /\ res' = NoRes /\ steps' = steps + 1
+        /\ UNCHANGED <<sig, phase>>
 
 \* simulation only: mostly arguments that the step accepts, plus a few arbitrary ones
 CtorCalls == IF SimK = 0 THEN Calls
@@ -300,7 +326,7 @@ Next == /\ steps < MaxSteps        \* (a guard rather than a state constraint: s
                 Construct(c, o, g, fa, vm)
            \/ \E n \in Named(sig) : SetAttr(n) \/ DelAttr(n)
            \/ \E es \in RebindSeqs : Rebind(es)
-           \/ Clone \/ JsonRT \/ Drop
+           \/ Clone \/ JsonRT \/ Drop \/ Fork \/ Swap
            \/ \E c \in CallCalls, ov \in BOOLEAN, ig \in BOOLEAN, cm \in CallModeSet : Call(c, ov, ig, cm)
 Spec == Init /\ [][Next]_vars
 StepBound == steps <= MaxSteps
@@ -312,7 +338,9 @@ CallsLast == (act[1] = "Call") => steps = MaxSteps
 TypeOK == /\ sig \in WFSigs /\ phase \in {"new", "built"}
           /\ DOMAIN bound \subseteq Named(sig) \cup (IF sig.vk THEN KwNames ELSE {})
           /\ (vargs # <<>>) => sig.va
-          /\ (phase = "new") => (bound = EmptyMap /\ vargs = <<>>)
+          /\ (phase = "new") => (bound = EmptyMap /\ vargs = <<>> /\ ~other.live)
+          /\ other.live => other.rep = Report(sig, other.bound, other.vargs)
+          /\ ~other.live => other = NoOther
           /\ rep = (IF phase = "built" THEN Report(sig, bound, vargs) ELSE NoRep)
           /\ rep.nondef \cap rep.dflt = {}
           /\ (phase = "built") => (DOMAIN bound \subseteq rep.nondef \cup rep.dflt)
@@ -376,5 +404,13 @@ RebindOrderFree ==
        /\ bound' = ApplySet(bound, act'[2])          \* (entries carry <<kind, name, value>>; ApplySet reads kind, name)
        /\ DOMAIN bound' = (DOMAIN bound) \cup {act'[2][k][2] : k \in 1..Len(act'[2])}]_vars
 
-view == <<sig, phase, bound, vargs, ovr, ign, flagAt, res, act>>
+\* copy independence: only Fork / Swap / Drop touch the passive functor - whatever is done to the active one, the
+\* passive one reports the same arguments and answers the probe calls the same way; a fresh copy reports what the
+\* original reports, and forking does not change the original
+CloneIsolated ==
+  [][/\ (act'[1] \notin {"Fork", "Swap", "Drop"}) => other' = other
+     /\ (act'[1] = "Fork") => (other'.rep = rep /\ rep' = rep /\ other'.bound = bound /\ other'.vargs = vargs)
+     /\ (act'[1] = "Swap") => (other'.rep = rep /\ rep' = other.rep)]_vars
+
+view == <<sig, phase, bound, vargs, ovr, ign, flagAt, res, other, act>>
 =============================================================================
